@@ -10,6 +10,7 @@ HARNESSES = {
     'K-fname-nb': dict(path='rolling::directory::verif_kani::k_fname_nb', fn='k_fname_nb', bounded=False, bound='all valid UTF-8 names of 24 bytes whose byte 4 is not a char boundary (exact validity predicate in the harness): None, no panic; loops bounded by the constant width 24'),
     'K-fname-len': dict(path='rolling::directory::verif_kani::k_fname_len', fn='k_fname_len', bounded=False, bound='all lengths 0..=32 except 24, all byte contents; loop-free'),
     'E-fname-rt': dict(kind='enum', path='rolling::file_number::verif_enum::e_fname_rt', fn='e_fname_rt', bounded=True, bound='NATIVE ENUMERATION (cargo test, not symbolic): every d*10^k and 2^k with both neighbours, u64::MAX, 200000 pseudo-random numbers: name is wal- + 20 digits and parses back'),
+    'E-c06': dict(kind='enum', path='multi_record_log::verif_enum_c06::e_c06_histories', fn='e_c06_histories', bounded=True, bound='NATIVE EXHAUSTIVE ENUMERATION OF HISTORIES (cargo test, not symbolic): two queues, every history of at most 4 operations out of 11 (small / block-spilling append, truncate all / half, delete+recreate, reopen): 16104 histories on real 4-block WAL files; the C06 statement checked after every truncate / delete / open'),
     'E-gate': dict(kind='enum', path='rolling::directory::verif_enum::e_gate', fn='e_gate', bounded=True, bound='NATIVE EXHAUSTIVE ENUMERATION (cargo test, not symbolic): trackers of 1..=5 files (consecutive or gapped numbers), every subset pinned by a live clone: 124 cases'),
     'K-handles': dict(path='rolling::file_number::verif_kani::k_handles', fn='k_handles', bounded=True, bound='fixed shape: 3 appends over 2 files, truncate position symbolic in 0..=3'),
     'K-hdr': dict(path='frame::header::verif_kani::k_hdr_roundtrip', fn='k_hdr_roundtrip', bounded=False, bound='all 2^56 7-byte headers; loop-free'),
